@@ -337,7 +337,7 @@ func ruleGateTable(c *Ctx, prop string) {
 				c.violate("R38", fmt.Sprintf("R38:gate-table#%d", i+1), site, b)
 			}
 		}
-	case nOps < 50 || evaluated < cells*9/10:
+	case nOps < 50 || evaluated < cells:
 		c.undecided("R38", "R38:gate-table", site, fmt.Sprintf("%d operators, %d of %d cells could be followed: the gate's factoring is not recognised", nOps, evaluated, cells))
 	default:
 		c.discharge("R38", "R38:gate-table", site, fmt.Sprintf("%d operators x every input count 0..max+2 x 14 element types at every position x nil at every optional position (%d cells): refused exactly when the count or a type is outside the operator's own tables; accepted lists are passed through in order and padded with nil to the maximum", nOps, cells))
